@@ -138,7 +138,7 @@ func (c *compiler) compile(q *Query) error {
 func (c *compiler) compileImport(i *Import) error {
 	var path, alias string
 	var err error
-	if i.ImportPath != "" {
+	if i.ImportAlias != "" { // the path can be empty
 		path, alias = i.ImportPath, i.ImportAlias
 	} else {
 		path = i.IncludePath
